@@ -250,6 +250,30 @@ Proof.
     apply Rabs_def2b in D; [left|right]; rewrite <- Z; [apply Sm|apply Sp]; lra.
 Qed.
 
+(** what the code does when the tabulated range of the high-T phase is ALREADY exceeded at
+    the slow end of the window (hypothesis Tp_lo above fails): no sign change, both root
+    searches raise ValueError, and vJ is returned with no flag although every wall of the
+    window is outside the range.  (Documented behaviour; the property only speaks of ranges
+    reached INSIDE the window.) *)
+Theorem fastest_blind_when_window_starts_out_of_range flags :
+  incr_on Tm lo hi -> incr_on Tp lo hi ->
+  Tm hi < TMaxLowT c -> TMaxHighT c < Tp lo ->
+  FD flags = (vJ c, (false, false)) /\ forall vw, lo <= vw <= hi -> TMaxHighT c < Tp vw.
+Proof.
+  intros Im Ip Hm Hp. split.
+  - destruct (FD_cases flags) as [[_ [A _]]|[_ [v1 [f1 [v2 [f2 [E [H1 H2]]]]]]]].
+    + assert (Tp lo <= Tp hi) by (apply Ip; lra). lra.
+    + rewrite E.
+      destruct H1 as [[B1 _]|[_ [V1 F1]]].
+      { destruct (proj2 brent_Tm _ B1) as [_ [r0 [Hr0 [Z _]]]].
+        assert (Tm r0 <= Tm hi) by (apply Im; lra). lra. }
+      destruct H2 as [[B2 _]|[_ [V2 F2]]].
+      { destruct (proj2 brent_Tp _ B2) as [_ [r0 [Hr0 [Z _]]]].
+        assert (Tp lo <= Tp r0) by (apply Ip; lra). lra. }
+      subst. rewrite Rmin_left by lra. reflexivity.
+  - intros vw Hvw. apply Rlt_le_trans with (Tp lo); [exact Hp|apply Ip; lra].
+Qed.
+
 (** the flags, for a freshly constructed object (both False): a flag is raised only if the
     corresponding range is reached inside the window AND the range end is not a genuine
     end of the phase *)
